@@ -17,7 +17,7 @@ pub fn spec() -> PropSpec {
     PropSpec {
         id: "C15",
         level: "exploration",
-        rule: "(a) generated table contents (0..16 rows injected, key values drawn from small pools so that ties, blanks, negatives and sub-unit differences such as 52.3 vs 52.7 occur) x -o given as 0..3 strings over the key letters s a A v V N S W E d D c plus noise letters, printed by Planes::print: the printed addresses are exactly the table's keys, each once, and the column of the last recognised key letter is monotone over the rows where it is not blank (ascending for s and a, descending for A, either direction for the others; ties in any order); without a recognised letter the rows are in ascending address order. (b) generated frame streams for several aircraft through the real reader with a refresh per frame: every refresh lists every aircraft heard so far exactly once and the key column read from the printed cells (s, a, A, v, V) is monotone. Non-trivial = >= 3 rows with >= 2 distinct non-blank key values and >= 1 tie or blank; distinct by hash",
+        rule: "(a) generated table contents (0..16 rows injected, one table in thirteen with 60..300 rows, key values drawn from small pools so that ties, blanks, negatives and sub-unit differences such as 52.3 vs 52.7 occur) x -o given as 0..3 strings over the key letters s a A v V N S W E d D c plus noise letters, printed by Planes::print: the printed addresses are exactly the table's keys, each once, and the column of the last recognised key letter is monotone over the rows where it is not blank (ascending for s and a, descending for A, either direction for the others; ties in any order); without a recognised letter the rows are in ascending address order. (b) generated frame streams for several aircraft through the real reader with a refresh per frame: every refresh lists every aircraft heard so far exactly once and the key column read from the printed cells (s, a, A, v, V) is monotone. Non-trivial = >= 3 rows with >= 2 distinct non-blank key values and >= 1 tie or blank; distinct by hash",
         assumptions: &["the letter C (category descending) is implemented but not named by the property and is not generated", "blank keys may appear anywhere in the order"],
         workers: 16,
         also_nochk: false,
@@ -41,7 +41,7 @@ fn pooled_rows() -> BoxedStrategy<Vec<RowSpec>> {
     let lon = prop_oneof![Just(0.0f64), Just(-8.3f64), Just(-8.7f64), Just(8.3f64), Just(-0.4f64), Just(0.4f64), Just(179.9f64), Just(-179.9f64)];
     let dist = prop_oneof![Just(None), Just(Some(0.2f64)), Just(Some(0.7f64)), Just(Some(10.4f64)), Just(Some(10.6f64)), Just(Some(12.34f64)), Just(Some(12.36f64)), Just(Some(12.31f64)), Just(Some(250.0f64))];
     let cat = prop_oneof![1 => Just((0u32, 0u32)), 1 => Just((4u32, 3u32)), 1 => Just((4u32, 5u32)), 4 => (1u32..=4, 0u32..8)];
-    let row = (rows::row_strategy(prop_oneof![3 => 1u32..40, 1 => 1u32..0xFFFFFF]), sq, alt, vr, lat, lon, dist, cat).prop_map(|(mut r, sq, alt, vr, lat, lon, dist, cat)| {
+    let row = (rows::row_strategy(prop_oneof![3 => 1u32..400, 1 => 1u32..0xFFFFFF]), sq, alt, vr, lat, lon, dist, cat).prop_map(|(mut r, sq, alt, vr, lat, lon, dist, cat)| {
         r.squawk = sq;
         r.altitude = alt;
         r.vrate = vr;
@@ -51,7 +51,7 @@ fn pooled_rows() -> BoxedStrategy<Vec<RowSpec>> {
         r.category = cat;
         r
     });
-    proptest::collection::vec(row, 0..16)
+    prop_oneof![12 => proptest::collection::vec(row.clone(), 0..16), 1 => proptest::collection::vec(row, 60..300)]
         .prop_map(|mut v| {
             v.sort_by_key(|r| r.icao);
             v.dedup_by_key(|r| r.icao);
